@@ -361,6 +361,13 @@ func (e *Env) term(x *Sx) string {
 	}
 	if vw, ok := e.s.Spec.Views[h]; ok && len(x.List) == 2 {
 		av := e.val(x.List[1])
+		if pv, isPtr := av.(Ptr); isPtr && pv.Loc != nil {
+			// a pointer to an abstract (scalar) value denotes that value: no view
+			if sc, ok := e.s.load(e.cur, pv).(Sc); ok {
+				av = sc
+				return "(" + h + " " + sc.T + ")"
+			}
+		}
 		if _, isSc := av.(Sc); !isSc {
 			n := *e
 			n.vars = map[string]Val{}
@@ -668,7 +675,14 @@ func (s *Session) bcode(st *State, sl Slice) string {
 	if len(c.Leaves) != 1 {
 		subsetf("bcode of a non-byte slice")
 	}
-	return fmt.Sprintf("(bcode %s %s %s)", c.Leaves[0], sl.Off, sl.Len)
+	t := fmt.Sprintf("(bcode %s %s %s)", c.Leaves[0], sl.Off, sl.Len)
+	// the code determines the length (it is an injective code of the byte string); stated only where the
+	// contract under verification talks about blen (the extra function over arrays makes model finding for
+	// cover queries slow)
+	if s.BlenFacts {
+		s.fact(fmt.Sprintf("(= (blen %s) %s)", t, sl.Len))
+	}
+	return t
 }
 
 func (s *Session) sentinelCode(name string) string {
